@@ -7,8 +7,161 @@
 extern uint32_t carquet_crc32(const uint8_t* data, size_t length);
 extern uint32_t carquet_crc32_update(uint32_t crc, const uint8_t* data, size_t length);
 
+/* ---- C20: XXH64 and the Bloom filter API (exported, not in the public header: declared here) ---- */
+#include <stdbool.h>
+#include <carquet/error.h>
+extern uint64_t carquet_xxhash64(const void* data, size_t length, uint64_t seed);
+typedef struct carquet_bloom_filter carquet_bloom_filter_t;
+extern carquet_bloom_filter_t* carquet_bloom_filter_create(size_t num_bytes);
+extern carquet_bloom_filter_t* carquet_bloom_filter_create_with_ndv(int64_t ndv, double fpp);
+extern void carquet_bloom_filter_destroy(carquet_bloom_filter_t* filter);
+extern void carquet_bloom_filter_insert_hash(carquet_bloom_filter_t* filter, uint64_t hash);
+extern void carquet_bloom_filter_insert_i32(carquet_bloom_filter_t* filter, int32_t value);
+extern void carquet_bloom_filter_insert_i64(carquet_bloom_filter_t* filter, int64_t value);
+extern void carquet_bloom_filter_insert_float(carquet_bloom_filter_t* filter, float value);
+extern void carquet_bloom_filter_insert_double(carquet_bloom_filter_t* filter, double value);
+extern void carquet_bloom_filter_insert_bytes(carquet_bloom_filter_t* filter, const uint8_t* data, size_t len);
+extern bool carquet_bloom_filter_check_hash(const carquet_bloom_filter_t* filter, uint64_t hash);
+extern bool carquet_bloom_filter_check_i32(const carquet_bloom_filter_t* filter, int32_t value);
+extern bool carquet_bloom_filter_check_i64(const carquet_bloom_filter_t* filter, int64_t value);
+extern bool carquet_bloom_filter_check_float(const carquet_bloom_filter_t* filter, float value);
+extern bool carquet_bloom_filter_check_double(const carquet_bloom_filter_t* filter, double value);
+extern bool carquet_bloom_filter_check_bytes(const carquet_bloom_filter_t* filter, const uint8_t* data, size_t len);
+extern const uint8_t* carquet_bloom_filter_data(const carquet_bloom_filter_t* filter);
+extern size_t carquet_bloom_filter_size(const carquet_bloom_filter_t* filter);
+extern size_t carquet_bloom_filter_num_blocks(const carquet_bloom_filter_t* filter);
+extern carquet_status_t carquet_bloom_filter_write(const carquet_bloom_filter_t* filter, uint8_t* output,
+                                                   size_t output_capacity, size_t* bytes_written);
+extern carquet_status_t carquet_bloom_filter_read(carquet_bloom_filter_t** filter_out, const uint8_t* data,
+                                                  size_t data_size);
+extern carquet_status_t carquet_bloom_filter_merge(carquet_bloom_filter_t* dest, const carquet_bloom_filter_t* src);
+
+#define BL_SLOTS 4
+static carquet_bloom_filter_t* bl_slot[BL_SLOTS];
+
+static void bl_set(int k, carquet_bloom_filter_t* f) {
+    if (bl_slot[k]) carquet_bloom_filter_destroy(bl_slot[k]);
+    bl_slot[k] = f;
+}
+
+/* split "a:b:c" in place; returns number of fields (max 4) */
+static int bl_fields(char* op, char* fld[4]) {
+    int n = 0; char* p = op;
+    while (n < 4) {
+        fld[n++] = p;
+        char* q = strchr(p, ':');
+        if (!q) break;
+        *q = 0; p = q + 1;
+    }
+    return n;
+}
+
+/* typed insert (ins = 1) or check (ins = 0) of the value whose plain encoding is the hex payload */
+static int bl_typed(carquet_bloom_filter_t* f, const char* ty, const char* hex, int ins, size_t align) {
+    size_t n; void* base;
+    uint8_t* p = h_unhex(hex, &n, align, &base);
+    int r = -1;
+    if (!strcmp(ty, "i32") && n == 4) { int32_t v; memcpy(&v, p, 4);
+        if (ins) carquet_bloom_filter_insert_i32(f, v); else r = carquet_bloom_filter_check_i32(f, v); }
+    else if (!strcmp(ty, "i64") && n == 8) { int64_t v; memcpy(&v, p, 8);
+        if (ins) carquet_bloom_filter_insert_i64(f, v); else r = carquet_bloom_filter_check_i64(f, v); }
+    else if (!strcmp(ty, "f32") && n == 4) { float v; memcpy(&v, p, 4);
+        if (ins) carquet_bloom_filter_insert_float(f, v); else r = carquet_bloom_filter_check_float(f, v); }
+    else if (!strcmp(ty, "f64") && n == 8) { double v; memcpy(&v, p, 8);
+        if (ins) carquet_bloom_filter_insert_double(f, v); else r = carquet_bloom_filter_check_double(f, v); }
+    else if (!strcmp(ty, "ba")) {
+        if (ins) carquet_bloom_filter_insert_bytes(f, p, n); else r = carquet_bloom_filter_check_bytes(f, p, n); }
+    else r = -2;
+    free(base);
+    return r;
+}
+
+/* One scenario per line: a sequence of operations on up to BL_SLOTS filters, one result token each.
+ *   c:K:SIZEHEX  create            -> c=BYTES/BLOCKS (hex) | c=NULL
+ *   cn:K:NDV:FPPBITS create_with_ndv (ndv decimal, fpp as binary64 bits) -> like c
+ *   i:K:T:HEX    typed insert      -> i          q:K:T:HEX typed check -> q=0|1     T in i32 i64 f32 f64 ba
+ *   ih:K:HASH    insert_hash       -> ih         qh:K:HASH check_hash  -> qh=0|1
+ *   m:D:S        merge S into D    -> m=ok|err
+ *   w:K:CAP      write into a buffer of exactly CAP bytes -> w=ok:HEX | w=err
+ *   r:D:S        write S into an exact buffer, read it into D -> r=ok|err
+ *   rb:D:HEX     read from the given bytes -> rb=ok|err
+ *   d:K          dump -> d=BYTES/BLOCKS/HEX                                            */
+static void do_bloom(char* line) {
+    fputs("OK", stdout);
+    int opno = 0;
+    for (char* op = strtok(line, " "); op; op = strtok(NULL, " "), opno++) {
+        char* fld[4]; int nf = bl_fields(op, fld);
+        const char* o = fld[0];
+        int k = nf > 1 ? atoi(fld[1]) : 0;
+        if (k < 0 || k >= BL_SLOTS) { fputs(" ?slot", stdout); continue; }
+        carquet_bloom_filter_t* f = bl_slot[k];
+        putchar(' ');
+        if ((!strcmp(o, "c") && nf == 3) || (!strcmp(o, "cn") && nf == 4)) {
+            carquet_bloom_filter_t* g;
+            if (o[1] == 0) g = carquet_bloom_filter_create((size_t)strtoull(fld[2], NULL, 16));
+            else { uint64_t bits = strtoull(fld[3], NULL, 16); double fpp; memcpy(&fpp, &bits, 8);
+                   g = carquet_bloom_filter_create_with_ndv((int64_t)strtoll(fld[2], NULL, 10), fpp); }
+            bl_set(k, g);
+            if (!g) printf("%s=NULL", o);
+            else printf("%s=%zx/%zx", o, carquet_bloom_filter_size(g), carquet_bloom_filter_num_blocks(g));
+        } else if (!f && strcmp(o, "r") && strcmp(o, "rb")) {
+            printf("%s=noslot", o);
+        } else if (!strcmp(o, "i") && nf == 4) {
+            int r = bl_typed(f, fld[2], fld[3], 1, (size_t)(opno % 8));
+            fputs(r == -2 ? "i=badtype" : "i", stdout);
+        } else if (!strcmp(o, "q") && nf == 4) {
+            int r = bl_typed(f, fld[2], fld[3], 0, (size_t)((opno + 3) % 8));
+            if (r < 0) fputs("q=badtype", stdout); else printf("q=%d", r);
+        } else if (!strcmp(o, "ih") && nf == 3) {
+            carquet_bloom_filter_insert_hash(f, strtoull(fld[2], NULL, 16));
+            fputs("ih", stdout);
+        } else if (!strcmp(o, "qh") && nf == 3) {
+            printf("qh=%d", (int)carquet_bloom_filter_check_hash(f, strtoull(fld[2], NULL, 16)));
+        } else if (!strcmp(o, "m") && nf == 3) {
+            int s = atoi(fld[2]);
+            if (s < 0 || s >= BL_SLOTS || !bl_slot[s]) { fputs("m=noslot", stdout); continue; }
+            printf("m=%s", carquet_bloom_filter_merge(f, bl_slot[s]) == CARQUET_OK ? "ok" : "err");
+        } else if (!strcmp(o, "w") && nf == 3) {
+            size_t cap = (size_t)strtoull(fld[2], NULL, 10), wr = 0;
+            uint8_t* buf = malloc(cap ? cap : 1);              /* exact size: an overrun is an ASan report */
+            uint8_t* out = cap ? buf : buf + 1;
+            if (carquet_bloom_filter_write(f, out, cap, &wr) == CARQUET_OK) { fputs("w=ok:", stdout); h_puthex(out, wr); }
+            else fputs("w=err", stdout);
+            free(buf);
+        } else if (!strcmp(o, "r") && nf == 3) {
+            int s = atoi(fld[2]);
+            if (s < 0 || s >= BL_SLOTS || !bl_slot[s]) { fputs("r=noslot", stdout); continue; }
+            size_t cap = carquet_bloom_filter_size(bl_slot[s]), wr = 0;
+            uint8_t* buf = malloc(cap ? cap : 1);
+            carquet_bloom_filter_t* g = NULL;
+            if (carquet_bloom_filter_write(bl_slot[s], buf, cap, &wr) == CARQUET_OK &&
+                carquet_bloom_filter_read(&g, buf, wr) == CARQUET_OK && g) { bl_set(k, g); fputs("r=ok", stdout); }
+            else fputs("r=err", stdout);
+            free(buf);                                          /* the loaded filter must own a copy */
+        } else if (!strcmp(o, "rb") && nf == 3) {
+            size_t n; void* base; uint8_t* p = h_unhex(fld[2], &n, (size_t)(opno % 4), &base);
+            carquet_bloom_filter_t* g = NULL;
+            if (carquet_bloom_filter_read(&g, p, n) == CARQUET_OK && g) { bl_set(k, g); fputs("rb=ok", stdout); }
+            else fputs("rb=err", stdout);
+            free(base);
+        } else if (!strcmp(o, "d") && nf == 2) {
+            printf("d=%zx/%zx/", carquet_bloom_filter_size(f), carquet_bloom_filter_num_blocks(f));
+            h_puthex(carquet_bloom_filter_data(f), carquet_bloom_filter_size(f));
+        } else {
+            printf("%s=badop", o);
+        }
+    }
+    putchar('\n');
+    for (int k = 0; k < BL_SLOTS; k++) bl_set(k, NULL);
+}
+
 int main(void) {
     while (h_readline()) {
+        if (!strncmp(h_line, "bloom ", 6) || !strcmp(h_line, "bloom")) {   /* own tokeniser: scenarios have many ops */
+            do_bloom(h_line + 5);
+            fflush(stdout);
+            continue;
+        }
         h_split();
         if (h_ntok == 0) { puts("ERR empty"); continue; }
         if (!strcmp(h_tok[0], "crc") && h_ntok == 3) {
@@ -28,6 +181,15 @@ int main(void) {
             uint32_t c = carquet_crc32_update(carquet_crc32(a, k), b, n - k);
             printf("OK %x\n", c);
             free(a); free(b); free(base);
+        } else if (!strcmp(h_tok[0], "xxh") && h_ntok == 4) {
+            /* xxh <align> <seed hex> <data hex>: carquet_xxhash64 and libxxhash's XXH64 on an exact-size buffer */
+            size_t al = (size_t)atoi(h_tok[1]), n; void* base;
+            uint64_t seed = strtoull(h_tok[2], NULL, 16);
+            uint8_t* p = h_unhex(h_tok[3], &n, al, &base);
+            uint64_t c = carquet_xxhash64(p, n, seed);
+            uint64_t x = (uint64_t)XXH64(p, n, (XXH64_hash_t)seed);
+            printf("OK %" PRIx64 " %" PRIx64 "\n", c, x);
+            free(base);
         } else {
             puts("ERR unknown-op");
         }
